@@ -276,9 +276,11 @@ def floor_stage(run, n, prop="C03"):
             part = float(sum(v for v, x in zip(c["partial"], c["nonrep"]) if tuple(x) == k))
             gl, gu = impl["lower"][pos], impl["upper"][pos]
             if gl < counted + part or gu < counted + part or gl != int(gl) or gu != int(gu):
-                run.violation("gaussian aggregate bound below the counted votes of its own group (or not a whole number)",
+                run.violation(("gaussian interval columns do not sit on the row of the group they were computed for: a bound is below the "
+                               "counted votes of its own row" if prop == "C02" else
+                               "gaussian aggregate bound below the counted votes of its own group (or not a whole number)"),
                               input=c, group=list(k), impl=[gl, gu], expected=f">= {counted + part}",
-                              predicate="agg_floor_gauss", signature=f"{prop}:gauss-floor")
+                              predicate="interval_rows_aligned (gaussian)" if prop == "C02" else "agg_floor_gauss", signature=f"{prop}:gauss-floor")
                 break
 
 
